@@ -165,6 +165,21 @@ class SimKeyboardInterrupt(KeyboardInterrupt):
     pass
 
 
+class WorldTimeout(BaseException):
+    """Raised by the per-run watchdog: the behave run did not terminate (liveness)."""
+
+
+def _watchdog_seconds():
+    try:
+        return float(os.environ.get("VERIF_RUN_TIMEOUT", "60"))
+    except ValueError:
+        return 60.0
+
+
+def _on_watchdog(signum, frame):
+    raise WorldTimeout("behave run did not end within %.0f s of real time" % _watchdog_seconds())
+
+
 class _Sim(object):
     def __init__(self):
         self.reset(None)
@@ -1258,9 +1273,21 @@ def run_world(world, root, extra_formatters=None, keep_model=False, post=None):
             config = Configuration(argv)
             if extra_formatters:
                 extra_formatters(config)
+            import signal
+            armed = False
             try:
+                # liveness watchdog (real time, generous: a simulated run takes milliseconds; every
+                # wait inside it is virtual).  Not a source of nondeterminism for terminating runs.
+                try:
+                    signal.signal(signal.SIGALRM, _on_watchdog)
+                    signal.setitimer(signal.ITIMER_REAL, _watchdog_seconds())
+                    armed = True
+                except (ValueError, AttributeError, OSError):
+                    pass
                 hist["rc"] = run_behave(config, runner_class=SimRunner)
             finally:
+                if armed:
+                    signal.setitimer(signal.ITIMER_REAL, 0)
                 if post is not None and SIM.runner is not None:
                     try:
                         hist["post"] = post(SIM.runner, config)
